@@ -335,7 +335,36 @@ struct WOut {
 
 /// the operations a client can apply to the writer itself (also through `adapter.parent()`)
 fn apply_simple(w: &mut surf_n_term::render::TerminalWriter<'_>, defs: &Defs, op: &Value) -> bool {
+    if op["form"].as_str() == Some("with") {
+        // the builder forms (with_char, with_cell, with_face, with_wraps, with_text), taken through the
+        // `impl CellWrite for &mut W`; they return the writer, not a flag
+        let r = CellWrite::by_ref(w);
+        match op["o"].as_str().unwrap_or("") {
+            "char" => {
+                let _ = r.with_char(char::from_u32(op["c"].as_u64().unwrap_or(63) as u32).unwrap_or('?'));
+            }
+            "cell" => {
+                let _ = r.with_cell(defs.cell_from(op));
+            }
+            "face" => {
+                let _ = r.with_face(face_from(&op["face"]));
+            }
+            "wraps" => {
+                let _ = r.with_wraps(op["b"].as_bool().unwrap_or(true));
+            }
+            "text" => {
+                let text: Text = op["cells"].as_array().cloned().unwrap_or_default().iter().map(|c| defs.cell_from(c)).collect();
+                let _ = r.with_text(&text);
+            }
+            _ => {}
+        }
+        return true;
+    }
     match op["o"].as_str().unwrap_or("") {
+        "image" => match defs.images.get(op["id"].as_u64().unwrap_or(0) as usize) {
+            Some(i) => w.put_image(i.clone()),
+            None => true,
+        },
         "char" => w.put_char(char::from_u32(op["c"].as_u64().unwrap_or(63) as u32).unwrap_or('?')),
         "cell" => w.put_cell(defs.cell_from(op)),
         "face" => {
@@ -395,7 +424,19 @@ fn run_program(defs: &Defs, len: usize, shape: Shape, ops: &[Value], mode: u8) -
         let mut w = surf.writer(&defs.ctx);
         for op in ops {
             match op["o"].as_str().unwrap_or("") {
-                "char" | "cell" | "face" | "wraps" | "cursor" | "text" => flags.push(apply_simple(&mut w, defs, op)),
+                "char" | "cell" | "face" | "wraps" | "cursor" | "text" | "image" => flags.push(apply_simple(&mut w, defs, op)),
+                "scope" => {
+                    // CellWrite::scope: face and wraps flag as they were on entry are restored on exit
+                    let inner: Vec<Value> = op["ops"].as_array().cloned().unwrap_or_default();
+                    let mut fl = vec![];
+                    w.scope(|w| {
+                        for o in &inner {
+                            fl.push(apply_simple(w, defs, o));
+                        }
+                    });
+                    flags.extend(fl);
+                    flags.extend([true, true]);
+                }
                 "sess" => {
                     // ONE adapter for the whole session; parent() used between its writes
                     let items = session_items(op, mode);
@@ -448,11 +489,28 @@ fn run_program(defs: &Defs, len: usize, shape: Shape, ops: &[Value], mode: u8) -
                         chunks = chunks.concat().iter().map(|b| vec![*b]).collect();
                     }
                     let via_utf8 = op["via"].as_str() == Some("utf8");
+                    // the entry point of io::Write a chunk goes through: write, write_all, write_vectored (an empty
+                    // slice first: the provided method hands the first non-empty one to write), write_fmt (valid
+                    // UTF-8 only), with a flush in between; all are one write of the chunk
+                    let how = op["how"].as_str().unwrap_or("write").to_string();
+                    fn put<W: std::io::Write>(w: &mut W, how: &str, c: &[u8]) -> bool {
+                        let r = match how {
+                            "write_all" => w.write_all(c).is_ok(),
+                            "vectored" => w.write_vectored(&[std::io::IoSlice::new(&[]), std::io::IoSlice::new(c)]).is_ok(),
+                            "fmt" => match std::str::from_utf8(c) {
+                                Ok(text) => write!(w, "{}", text).is_ok(),
+                                Err(_) => w.write(c).is_ok(),
+                            },
+                            "flush" => w.write(c).is_ok() && w.flush().is_ok(),
+                            _ => w.write(c).is_ok(),
+                        };
+                        r
+                    }
                     let mut ok = true;
                     if op["via"].as_str() == Some("tty") {
                         let mut tw = CellWrite::by_ref(&mut w).tty_writer();
                         for c in &chunks {
-                            if tw.write(c).is_err() {
+                            if !put(&mut tw, &how, c) {
                                 ok = false;
                                 break;
                             }
@@ -460,14 +518,14 @@ fn run_program(defs: &Defs, len: usize, shape: Shape, ops: &[Value], mode: u8) -
                     } else if via_utf8 {
                         let mut uw = CellWrite::by_ref(&mut w).utf8_writer();
                         for c in &chunks {
-                            if uw.write(c).is_err() {
+                            if !put(&mut uw, &how, c) {
                                 ok = false;
                                 break;
                             }
                         }
                     } else {
                         for c in &chunks {
-                            if w.write(c).is_err() {
+                            if !put(&mut w, &how, c) {
                                 ok = false;
                                 break;
                             }
@@ -490,6 +548,10 @@ fn run_program(defs: &Defs, len: usize, shape: Shape, ops: &[Value], mode: u8) -
 
 fn pop_coq(defs: &Defs, op: &Value) -> String {
     match op["o"].as_str().unwrap_or("") {
+        "image" => match defs.images.get(op["id"].as_u64().unwrap_or(0) as usize) {
+            Some(i) => format!("(PCell {})", defs.cell_coq(&Cell::new_image(i.clone()))),
+            None => "(PWraps true)".to_string(),
+        },
         "char" => format!("(PChar {})", op["c"].as_u64().unwrap_or(63)),
         "cell" => format!("(PCell {})", defs.cell_coq(&defs.cell_from(op))),
         "face" => format!("(PFace {})", face_coq(&face_from(&op["face"]))),
@@ -502,6 +564,8 @@ fn pop_coq(defs: &Defs, op: &Value) -> String {
 
 fn op_coq(defs: &Defs, op: &Value) -> String {
     match op["o"].as_str().unwrap_or("") {
+        // builder forms return no flag: the operation as a parent operation of an empty session (flag true)
+        "char" | "cell" | "face" | "wraps" | "text" if op["form"].as_str() == Some("with") => format!("(OSessU [SParent {}])", pop_coq(defs, op)),
         "fmt" => {
             // modelled as: set_face(face) (or a no-op), one write of the UTF-8 bytes through utf8_writer(),
             // set_face(previous face); "cur" is the writer's face before the call as tracked by ops_coq
@@ -524,6 +588,17 @@ fn op_coq(defs: &Defs, op: &Value) -> String {
             } else {
                 format!("(OSessU {})", items)
             }
+        }
+        "image" => match defs.images.get(op["id"].as_u64().unwrap_or(0) as usize) {
+            Some(i) => format!("(OCell {})", defs.cell_coq(&Cell::new_image(i.clone()))),
+            None => "(OWraps true)".to_string(),
+        },
+        "scope" => {
+            // inner operations, then set_wraps / set_face back to what ops tracking found at entry
+            let mut parts: Vec<String> = op["ops"].as_array().cloned().unwrap_or_default().iter().map(|o| op_coq(defs, o)).collect();
+            parts.push(format!("(OWraps {})", cbool(op["cur_wraps"].as_bool().unwrap_or(true))));
+            parts.push(format!("(OFace {})", face_coq(&face_from(&op["cur"]))));
+            parts.join("; ")
         }
         "char" => format!("(OChar {})", op["c"].as_u64().unwrap_or(63)),
         "cell" => format!("(OCell {})", defs.cell_coq(&defs.cell_from(op))),
@@ -786,12 +861,17 @@ fn run_w(input: &Value) -> Case {
     }
     {
         let mut cur = json!({"fg": null, "bg": null, "attrs": 0});
+        let mut cur_wraps = true;
         for o in ops.iter_mut() {
             if o["o"] == "face" {
                 cur = o["face"].clone();
             }
-            if o["o"] == "fmt" {
+            if o["o"] == "wraps" {
+                cur_wraps = o["b"].as_bool().unwrap_or(true);
+            }
+            if o["o"] == "fmt" || o["o"] == "scope" {
                 o["cur"] = cur.clone();
+                o["cur_wraps"] = json!(cur_wraps);
             }
         }
     }
@@ -816,7 +896,7 @@ fn run_w(input: &Value) -> Case {
         sgr_table(&ops),
         clist(ops.iter().map(|o| op_coq(&defs, o)))
     );
-    let fmt_with_tty = ops.iter().any(|o| o["o"] == "fmt") && ops.iter().any(|o| o["via"].as_str() == Some("tty") || o["o"] == "sess");
+    let fmt_with_tty = ops.iter().any(|o| o["o"] == "fmt" || o["o"] == "scope") && ops.iter().any(|o| o["via"].as_str() == Some("tty") || o["o"] == "sess");
     assert!(!fmt_with_tty, "generator invariant: fmt is not mixed with tty writes (the face before fmt must be known statically)");
     let mut j = input.clone();
     let res = |r: &Option<WOut>| match r {
@@ -851,6 +931,11 @@ fn run_w(input: &Value) -> Case {
             b.windows(2).any(|w| (w[0] == 0xED && w[1] >= 0xA0) || (w[0] == 0xF4 && w[1] >= 0x90) || (0xF5..=0xF7).contains(&w[0]))
         })),
         format!("set_cursor={}", ops.iter().any(|o| o["o"] == "cursor")),
+        format!("builder_form={}", input["ops"].to_string().contains("\"form\":\"with\"")),
+        format!("scope={}", ops.iter().any(|o| o["o"] == "scope")),
+        format!("put_image={}", input["ops"].to_string().contains("\"o\":\"image\"")),
+        format!("write_entry={}", ops.iter().filter_map(|o| o["how"].as_str()).next().unwrap_or("write")),
+        format!("fixed_sgr_split={}", input["fixed"].as_bool().unwrap_or(false)),
         format!("put_text={}", ops.iter().any(|o| o["o"] == "text" || (o["o"] == "sess" && o["items"].as_array().map(|a| a.iter().any(|i| i["o"] == "text")).unwrap_or(false)))),
         format!("glyphs={}", input["glyphs"].as_bool().unwrap_or(true)),
     ];
@@ -1401,7 +1486,7 @@ fn gen_view(rng: &mut Rng) -> (usize, usize, Vec<Value>, Value, usize) {
     (h, w, ops, Value::Null, h * w)
 }
 
-fn gen_w(rng: &mut Rng, v: &mut Vec<Value>) {
+fn gen_w(rng: &mut Rng, v: &mut Vec<Value>, bnd: &[u64]) {
     let (h, w, vops, shape, len) = gen_view(rng);
     let (gd, id) = gen_defs(rng);
     let (ng, ni) = (gd.as_array().unwrap().len(), id.as_array().unwrap().len());
@@ -1454,6 +1539,17 @@ fn gen_w(rng: &mut Rng, v: &mut Vec<Value>) {
             _ => json!({"o": "text", "cells": (0..rng.below(4)).map(|_| gen_cell(rng, ng, ni, true)).collect::<Vec<Value>>()}),
         }
     };
+    let gen_simple = |rng: &mut Rng| -> Value {
+        if ni > 0 && rng.chance(1, 10) {
+            return json!({"o": "image", "id": rng.below(ni as u64)});
+        }
+        let mut o = gen_simple(rng);
+        if o["o"] != "cursor" && rng.chance(1, 4) {
+            o["form"] = json!("with");
+        }
+        o
+    };
+    const HOW: [&str; 8] = ["write", "write", "write", "write_all", "vectored", "fmt", "flush", "write_all"];
     for _ in 0..nops {
         if sess_case && rng.chance(1, 2) {
             // the bytes of one stream cut anywhere (inside characters and escape sequences too), parent
@@ -1474,6 +1570,20 @@ fn gen_w(rng: &mut Rng, v: &mut Vec<Value>) {
             ops.push(json!({"o": "text", "cells": (0..rng.below(5)).map(|_| gen_cell(rng, ng, ni, true)).collect::<Vec<Value>>()}));
             continue;
         }
+        if rng.chance(1, 8) {
+            // builder forms, put_image
+            let mut o = gen_simple(rng);
+            if tty_case && o["o"] == "face" {
+                o["face"] = gen_face_plain_underline(rng);
+            }
+            ops.push(o);
+            continue;
+        }
+        if !tty_case && !sess_case && rng.chance(1, 12) {
+            let inner: Vec<Value> = (0..1 + rng.below(4)).map(|_| gen_simple(rng)).collect();
+            ops.push(json!({"o": "scope", "ops": inner}));
+            continue;
+        }
         ops.push(match rng.below(12) {
             0..=2 => json!({"o": "char", "c": gen_char(rng, true)}),
             3..=5 => {
@@ -1492,22 +1602,24 @@ fn gen_w(rng: &mut Rng, v: &mut Vec<Value>) {
             _ if tty_case && rng.chance(2, 3) => {
                 let b = gen_tty_bytes(rng, 6);
                 let chunks = random_cuts(rng, &b);
-                json!({"o": "write", "via": "tty", "chunks": chunks.iter().map(|c| jbytes(c)).collect::<Vec<_>>()})
+                json!({"o": "write", "via": "tty", "how": *rng.pick(&HOW), "chunks": chunks.iter().map(|c| jbytes(c)).collect::<Vec<_>>()})
             }
             _ => {
-                let b = gen_bytes(rng, 6);
+                // now and then a run of plain characters whose length is a constant of the source (tab stops, widths)
+                let b = if rng.chance(1, 8) { vec![b'a' + rng.below(3) as u8; *rng.pick(&bnd) as usize] } else { gen_bytes(rng, 6) };
                 let chunks = random_cuts(rng, &b);
-                json!({"o": "write", "via": if rng.chance(1, 3) { "utf8" } else { "writer" }, "chunks": chunks.iter().map(|c| jbytes(c)).collect::<Vec<_>>()})
+                json!({"o": "write", "via": if rng.chance(1, 3) { "utf8" } else { "writer" }, "how": *rng.pick(&HOW), "chunks": chunks.iter().map(|c| jbytes(c)).collect::<Vec<_>>()})
             }
         });
     }
     v.push(base(ops));
 }
 
-fn gen_t(rng: &mut Rng, v: &mut Vec<Value>) {
+fn gen_t(rng: &mut Rng, v: &mut Vec<Value>, bnd: &[u64]) {
     let (gd, id) = gen_defs(rng);
     let (ng, ni) = (gd.as_array().unwrap().len(), id.as_array().unwrap().len());
-    let n = rng.below(14) as usize;
+    // text length and available width: small numbers, now and then a constant of the source or a neighbour
+    let n = if rng.chance(1, 8) { *rng.pick(bnd) as usize } else { rng.below(14) as usize };
     let cr = rng.chance(1, 10);
     let cells: Vec<Value> = (0..n)
         .map(|_| {
@@ -1533,7 +1645,7 @@ fn gen_t(rng: &mut Rng, v: &mut Vec<Value>) {
     } else {
         cells
     };
-    let maxw = 1 + rng.below(12) as usize;
+    let maxw = if rng.chance(1, 8) { (*rng.pick(bnd) as usize).max(1) } else { 1 + rng.below(12) as usize };
     let maxh = if rng.chance(1, 4) { rng.below(6) as usize } else { 60 };
     let minw = if rng.chance(1, 4) { rng.below(maxw as u64 + 1) as usize } else { 0 };
     let minh = if rng.chance(1, 6) { rng.below(maxh.min(5) as u64 + 1) as usize } else { 0 };
@@ -1546,15 +1658,77 @@ fn gen_t(rng: &mut Rng, v: &mut Vec<Value>) {
         "chained": rng.chance(1, 4), "transposed": rng.chance(1, 3)}));
 }
 
-pub fn generate(rng: &mut Rng, n: usize, _tier: &str) -> Vec<Value> {
+/// ONE escape-sequence adapter fed an SGR sequence in every 2- and 3-way split and byte by byte, followed by chunks
+/// that are plain ASCII without ESC (what a fast path for plain text would take) -- among them the tail of the
+/// sequence itself; as chunks of one write operation and as a session with a parent operation in between
+fn fixed_cases() -> Vec<Value> {
     let mut v = vec![];
+    let base = |ops: Vec<Value>| json!({"k": "w", "H": 3, "W": 9, "len": 27, "vops": [{"r": {"f": "rng", "a": 1, "b": 3}, "c": {"f": "rng", "a": 1, "b": 8}}], "shape": null,
+                                         "glyphs": true, "glyph_defs": [], "image_defs": [], "ops": ops, "fixed": true});
+    let seqs: [&[u8]; 4] = [b"\x1b[1m", b"\x1b[0;31m", b"\x1b[38;5;196m", b"\x1b[48;2;1;2;3m"];
+    for seq in seqs.iter() {
+        let n = seq.len();
+        let mut cuts: Vec<Vec<usize>> = vec![vec![]];
+        for i in 1..n {
+            cuts.push(vec![i]);
+            for j in i + 1..n {
+                cuts.push(vec![i, j]);
+            }
+        }
+        cuts.push((1..n).collect());
+        // at most 40 splits per sequence, the byte-by-byte one always
+        let step = (cuts.len() / 40).max(1);
+        let last = cuts.len() - 1;
+        for (k, cut) in cuts.iter().enumerate() {
+            if k % step != 0 && k != last {
+                continue;
+            }
+            let mut chunks: Vec<Vec<u8>> = vec![];
+            let mut from = 0;
+            for c in cut.iter().chain(std::iter::once(&n)) {
+                chunks.push(seq[from..*c].to_vec());
+                from = *c;
+            }
+            chunks.push(b"ab1m".to_vec());
+            chunks.push(b";2m c".to_vec());
+            let jc: Vec<Value> = chunks.iter().map(|c| jbytes(c)).collect();
+            v.push(base(vec![json!({"o": "char", "c": 120}), json!({"o": "write", "via": "tty", "chunks": jc}), json!({"o": "char", "c": 122})]));
+            let mut items: Vec<Value> = vec![];
+            for (i, c) in chunks.iter().enumerate() {
+                items.push(json!({"b": jbytes(c)}));
+                if i == 0 {
+                    items.push(json!({"o": "char", "c": 121}));
+                }
+            }
+            v.push(base(vec![json!({"o": "sess", "via": "tty", "items": items}), json!({"o": "char", "c": 122})]));
+        }
+    }
+    // the same for a multi-byte character through the writer's own io::Write and through utf8_writer()
+    for via in ["writer", "utf8"] {
+        for how in ["write", "write_all", "vectored", "fmt", "flush"] {
+            let chunks: Vec<Value> = [&[0xE2u8][..], &[0x82], &[0xAC, b'a'], b"bc"].iter().map(|c| jbytes(c)).collect();
+            v.push(base(vec![json!({"o": "write", "via": via, "how": how, "chunks": chunks}), json!({"o": "char", "c": 122})]));
+        }
+    }
+    v
+}
+
+const BOUNDARY_FILES: [&str; 2] = ["src/render.rs", "src/view/text.rs"];
+
+pub fn generate(rng: &mut Rng, n: usize, _tier: &str) -> Vec<Value> {
+    let mut bnd = source_boundaries(&BOUNDARY_FILES, 40);
+    if bnd.is_empty() {
+        bnd.push(8);
+    }
+    let mut v = fixed_cases();
+    let n = n + v.len();
     while v.len() < n {
         if rng.chance(1, 10) {
             gen_j(rng, &mut v);
         } else if rng.chance(1, 2) {
-            gen_t(rng, &mut v);
+            gen_t(rng, &mut v, &bnd);
         } else {
-            gen_w(rng, &mut v);
+            gen_w(rng, &mut v, &bnd);
         }
     }
     v.truncate(n);
